@@ -16,7 +16,7 @@ LEVEL_TEXT = ('all distinct on-disk crash states of each scenario are produced b
               '(SIGKILL semantics: no handlers, no buffered flush); in each one every argument must be complete at its origin or complete under files/ with its '
               '.trashinfo, and every payload under any files/ must have a present, complete, parseable .trashinfo naming the right location')
 LEVEL_NOTE = 'crash = process kill between two system calls; power loss / page-cache reordering is out of scope; trusted: shim trace completeness for mutating calls (T1 transparency test)'
-RULE = ('scenarios: kind (6) x trash state (first use, existing, name collision) x route (home, .Trash/uid, .Trash-uid, home-fallback cross-volume) + two-argument, 250-byte name, -f / plain with every candidate blocked (quick) and -v/-i variants '
+RULE = ('scenarios: kind (6) x trash state (first use, existing, name collision) x route (home, .Trash/uid, .Trash-uid, home-fallback cross-volume) + two-argument (same volume; a mount point second; the same name on another volume second), 250-byte name, -f / plain with every candidate blocked (quick) and -v/-i variants '
         '(thorough); crash before each mutating syscall + after the last; non-trivial = the crash state differs from both the initial and the final state; distinct = (route, '
         'kind, state, operation at which the process died)')
 ROUTES = ['home', 'top', 'alt', 'fallback']
@@ -38,6 +38,10 @@ def scenarios(tier):
         out.append({'kind': 'file', 'route': route, 'state': 'warm', 'var': 'suffix-name'})
         for k in ('file', 'tree'):
             out.append({'kind': k, 'route': route, 'state': 'collision', 'var': 'long-name'})      # NAME.trashinfo exceeds NAME_MAX: both names are shortened
+    for route in ('home', 'alt'):
+        for k in ('file', 'tree'):
+            out.append({'kind': k, 'route': route, 'state': 'warm', 'var': 'then-mountpoint'})      # second argument: a mount point (its move is refused by itself)
+            out.append({'kind': k, 'route': route, 'state': 'cold', 'var': 'two-volumes'})          # second argument: same name on another volume
     for k in ('file', 'tree', 'ldir'):
         for var in ('-f', 'one'):
             out.append({'kind': k, 'route': 'blocked', 'state': 'cold', 'var': var})                # no candidate accepts the entry: it stays, with or without -f
@@ -59,9 +63,11 @@ def _name(s):
 def world_(s):
     route = s['route']
     B = '/home/u/w' if route == 'home' else '/mnt/v1/w'
-    W = scen.base_world(mounts=['/', '/mnt/v1'], cwd=B)
-    W.dir(B)
+    W = scen.base_world(mounts=['/', '/mnt/v1', '/mnt/v2'], cwd=B)
+    W.dir(B).file('/mnt/v2/inside', 'content of the third volume\n')
     scen.add_entry(W, B + '/' + _name(s), s['kind'])
+    if s['var'] == 'two-volumes':
+        scen.add_entry(W, '/mnt/v2/w/' + _name(s), s['kind'], tag=' (on the other volume)')
     if s['var'] == 'two':
         scen.add_entry(W, B + '/y', 'file')
     if route == 'top':
@@ -110,13 +116,17 @@ def command(s, ctx):
     argv.append(_name(s))
     if s['var'] == 'two':
         argv.append('y')
+    if s['var'] == 'then-mountpoint':
+        argv.append('/mnt/v2')
+    if s['var'] == 'two-volumes':
+        argv.append('/mnt/v2/w/' + _name(s))
     return {'argv': argv, 'env': env, 'cwd': B, 'stdin': stdin, 'now': '2024-05-06T07:08:09'}
 
 
 def oracle(s, ctx, start, sb, r, at):
     W, B, td = world_(s)
     snap = sb.snapshot()
-    args = [B + '/' + _name(s)] + ([B + '/y'] if s['var'] == 'two' else [])
+    args = [B + '/' + _name(s)] + ([B + '/y'] if s['var'] == 'two' else []) + (['/mnt/v2/w/' + _name(s)] if s['var'] == 'two-volumes' else [])
     detail = {'scenario': s, 'exit': r.exit, 'err': r.err[-200:]}
     last_op = r.trace[-1][1] if r.trace else None
     key = '%s|%s|%s|%s' % (s['route'], s['kind'], s['state'], last_op if at else 'END')
@@ -153,7 +163,9 @@ def oracle(s, ctx, start, sb, r, at):
     for p_ in start:
         if (p_.startswith(td + '/files/') or p_.startswith(td + '/info/')) and start[p_] != snap.get(p_) and start[p_][0] != 'd':
             problems.append('pre-existing-trash-content-changed:%s' % p_)
-    if at is None and r.exit != 0 and s['route'] != 'blocked':
+    if s['var'] == 'then-mountpoint' and world.under(start, '/mnt/v2') != world.under(snap, '/mnt/v2'):
+        problems.append('mount-point-changed')
+    if at is None and r.exit != 0 and s['route'] != 'blocked' and s['var'] != 'then-mountpoint':
         problems.append('uncrashed-run-failed')          # (with every candidate blocked the run has to fail - and the entry to stay)
     if problems:
         what = problems[0].split(':')[0]
